@@ -318,7 +318,12 @@ def run_case(case):
             # assembly's peak (value, pin) - rows exist exactly for the
             # assemblies that have a pin model
             if any('pin' in a._peak for a in r.assemblies):
-                for (what, loc, col, name) in (('clad', 'mw', 7, 'clad_mw'),
+                # (all five tables: those for clad OD/ID and fuel OD are
+                # only printed with a hot-spot request for that location)
+                for (what, loc, col, name) in (('clad', 'od', 6, 'clad_od'),
+                                               ('clad', 'mw', 7, 'clad_mw'),
+                                               ('clad', 'id', 8, 'clad_id'),
+                                               ('fuel', 'od', 9, 'fuel_od'),
                                                ('fuel', 'cl', 10,
                                                 'fuel_cl')):
                     try:
